@@ -3,7 +3,7 @@
    /repo/core/blockchain.go (writeHeadBlock, reorg, SetCanonical, insertChain,
    insertSideChain, recoverAncestors, SetHead, restart); each is closed by [exact]
    of a lemma of Chain/CanonicalProofs.v, CanonicalInv.v or CanonicalWitness.v. *)
-From GV Require Import Lib.Tactics Chain.Tree Chain.Canonical Chain.CanonicalProofs Chain.CanonicalInv Chain.CanonicalTop Chain.CanonicalWitness.
+From GV Require Import Lib.Tactics Chain.Tree Chain.Canonical Chain.LookupCache Chain.CanonicalProofs Chain.CanonicalInv Chain.CanonicalTop Chain.CanonicalWitness.
 Local Open Scope N_scope.
 
 (* The index is parent-linked up to the head, names the head at its height, and the head
@@ -137,6 +137,21 @@ Theorem C38_known_reimport_silent_refuted :
                     canon st' 2 = Some 2 /\ added_logs evs = [] /\ removed_logs evs = [200].
 Proof. exact known_reimport_silent_refuted. Qed.
 Print Assumptions C38_known_reimport_silent_refuted.
+
+(* the cached lookup path (BlockChain.GetCanonicalTransaction over txLookupCache, asked for
+   every tx after every operation).  Code before /repo 34cd8539c8 ([legacy] = true): on the
+   history "insert 1..4; restart; SetHead 2; insert competitor 5" the cache answers block 2
+   (#2) for tx 7 although neither the index resolves it nor is #2 canonical any more.  With
+   the purge in writeHeadBlock's replacing branch (transcribed as EvPurgeReplace) it does not. *)
+Theorem C38_lookup_cache_stale_legacy_refuted :
+  exists (ops : list op) (tx : N),
+    cached_vs_index true ops tx = (Some (2, 2), None, None).
+Proof. exact lookup_cache_stale_legacy_refuted. Qed.
+Print Assumptions C38_lookup_cache_stale_legacy_refuted.
+
+Theorem C38_lookup_cache_repaired : cached_vs_index false stale_ops 7 = (None, None, None).
+Proof. exact lookup_cache_repaired. Qed.
+Print Assumptions C38_lookup_cache_repaired.
 
 Example C38_nonvacuous : wf_tree WT /\ nonvacuous_check = true /\
   (forall g, WT 0 = Some g -> WT (b_parent g) = None) /\
